@@ -1215,7 +1215,18 @@ class Interp:
             if name in c.methods:
                 target = c.methods[name]
                 break
-        args = [self.eval(a, cc) for a in e.args]
+        args = []
+        for a in e.args:
+            if isinstance(a, ast.Starred):
+                v = self.eval(a.value, cc)
+                if isinstance(v, TupleV):
+                    args.extend(v.items)
+                elif isinstance(v, ListV) and flat_elems(v.items) is not None:
+                    args.extend(flat_elems(v.items))
+                else:
+                    args.append(Top("starred argument of unknown length"))
+            else:
+                args.append(self.eval(a, cc))
         kwargs = {}
         for k in e.keywords:
             if k.arg is None:
